@@ -10,6 +10,7 @@
 package c08
 
 import (
+	"bytes"
 	"context"
 	"crypto/sha1"
 	"encoding/hex"
@@ -161,6 +162,10 @@ type replayer struct {
 	pl       *plan
 	w        *world
 	findings []finding
+	// attribution run: every transaction (also the aborted ones) is executed operation by operation with the tables
+	// compared after each, up to step limit, to name the operation that diverged first
+	attrib bool
+	limit  int
 }
 
 var errAbort = errors.New("c08: the model aborts this transaction")
@@ -294,7 +299,11 @@ func (rp *replayer) run() (machinery error) {
 			return nil // unfinished transaction at the end of the behaviour: nothing to do
 		}
 		seg, end := steps[i+1:j], steps[j]
-		split := txIdx < len(rp.pl.Split) && rp.pl.Split[txIdx] && end.Act.Op == "Commit"
+		if rp.attrib && i > rp.limit {
+			return nil
+		}
+		target := rp.attrib && rp.limit <= j // the transaction the attribution run is about
+		split := target || (txIdx < len(rp.pl.Split) && rp.pl.Split[txIdx] && end.Act.Op == "Commit")
 		txIdx++
 		rp.st.mu.Lock()
 		rp.st.shapes[st.Act.shapeKey()]++
@@ -338,6 +347,9 @@ func (rp *replayer) run() (machinery error) {
 					stop(idx + 1)
 					return nil
 				}
+				if a.Kind == "write" && a.R.Cls == "error" {
+					return nil // attribution run reached the failing operation of an aborted transaction without a divergence
+				}
 				if a.Kind == "write" {
 					if werr != nil {
 						rp.add(&finding{key: "Commit/error/small", step: idx, detail: fmt.Sprintf("step %d: Write around a successful %s returned %v", idx+1, a.Op, werr)})
@@ -351,6 +363,9 @@ func (rp *replayer) run() (machinery error) {
 					}
 					pre = s.model()
 				}
+			}
+			if target {
+				return nil // attribution run: the transaction was executed piecewise, nothing more to learn
 			}
 			cur = end.model()
 			i = j + 1
@@ -442,7 +457,7 @@ func (rp *replayer) run() (machinery error) {
 
 // ---- plans ----
 
-func makePlan(rnd *rand.Rand, tier string, b *behaviour) *plan {
+func makePlan(rnd *rand.Rand, smallOnly bool, b *behaviour) *plan {
 	small := func() int { return groupSizes[rnd.Intn(2)] }
 	half := func() int { return groupSizes[2+rnd.Intn(3)] }
 	full := func() int { return groupSizes[5+rnd.Intn(3)] }
@@ -454,6 +469,9 @@ func makePlan(rnd *rand.Rand, tier string, b *behaviour) *plan {
 	}
 	big := names[rnd.Intn(len(names))]
 	p := rnd.Float64()
+	if smallOnly {
+		p = 0
+	}
 	switch {
 	case p < 0.40:
 	case p < 0.62:
@@ -595,13 +613,15 @@ type tierCfg struct {
 	perGen     int
 	workers    int
 	budget     time.Duration
+	extra      int // behaviours per generator in the extra rounds
 }
 
 func tierOf(tier string) tierCfg {
 	if tier == "thorough" {
 		return tierCfg{
-			families:   []family{{"GluonDB.mailbox.thorough.cfg", 3}, {"GluonDB.message.thorough.cfg", 3}, {"GluonDB.membership.thorough.cfg", 4}, {"GluonDB.tx.thorough.cfg", 2}},
-			famTimeout: 15 * time.Minute, generators: 4, perGen: 1500, workers: 8, budget: 14 * time.Minute}
+			families: []family{{"GluonDB.mailbox.thorough.cfg", 3}, {"GluonDB.message.thorough.cfg", 2}, {"GluonDB.membership.thorough.cfg", 2},
+				{"GluonDB.twobox.thorough.cfg", 2}, {"GluonDB.threemsg.thorough.cfg", 2}, {"GluonDB.tx.thorough.cfg", 2}},
+			famTimeout: 15 * time.Minute, generators: 4, perGen: 1500, workers: 8, budget: 14 * time.Minute, extra: 800}
 	}
 	return tierCfg{
 		families:   []family{{"GluonDB.mailbox.quick.cfg", 2}, {"GluonDB.message.quick.cfg", 2}, {"GluonDB.membership.quick.cfg", 2}},
@@ -637,71 +657,122 @@ func run(r *ev.Run, tier, replay string) {
 	}()
 
 	// (b) behaviours from simulation, replayed by a pool of workers
-	ch := make(chan *behaviour, 64)
-	var simStates int64
+	var simStates, nb int64
 	var smu sync.Mutex
-	var gwg sync.WaitGroup
-	for g := 0; g < tc.generators; g++ {
-		gwg.Add(1)
-		go func(g int) {
-			defer gwg.Done()
-			if err := simulate(seed*1000003+int64(g)*7919, tc.perGen, ch, &simStates, &smu); err != nil {
-				r.Machinery("tlc simulate: %v", err)
-			}
-		}(g)
-	}
-	go func() { gwg.Wait(); close(ch) }()
-
-	var wwg sync.WaitGroup
-	var nb int64
-	var exhausted bool
-	for k := 0; k < tc.workers; k++ {
-		wwg.Add(1)
-		go func(k int) {
-			defer wwg.Done()
-			rnd := rand.New(rand.NewSource(seed*7919 + int64(k)*104729))
-			for b := range ch {
-				if time.Since(start) > tc.budget {
-					smu.Lock()
-					exhausted = true
-					smu.Unlock()
-					continue // drain
+	exhausted := false
+	batch := func(round int, perGen int, smallOnly bool) {
+		ch := make(chan *behaviour, 64)
+		var gwg sync.WaitGroup
+		for g := 0; g < tc.generators; g++ {
+			gwg.Add(1)
+			go func(g int) {
+				defer gwg.Done()
+				if err := simulate(seed*1000003+int64(g)*7919+int64(round)*611953, perGen, ch, &simStates, &smu); err != nil {
+					r.Machinery("tlc simulate: %v", err)
 				}
-				pl := makePlan(rnd, tier, b)
-				replayOne(r, st, b, pl)
-				smu.Lock()
-				nb++
-				smu.Unlock()
-			}
-		}(k)
+			}(g)
+		}
+		go func() { gwg.Wait(); close(ch) }()
+		var wwg sync.WaitGroup
+		for k := 0; k < tc.workers; k++ {
+			wwg.Add(1)
+			go func(k int) {
+				defer wwg.Done()
+				rnd := rand.New(rand.NewSource(seed*7919 + int64(k)*104729 + int64(round)*15485863))
+				for b := range ch {
+					if time.Since(start) > tc.budget {
+						smu.Lock()
+						exhausted = true
+						smu.Unlock()
+						continue // drain
+					}
+					pl := makePlan(rnd, smallOnly, b)
+					replayOne(r, st, b, pl)
+					smu.Lock()
+					nb++
+					smu.Unlock()
+				}
+			}(k)
+		}
+		wwg.Wait()
 	}
-	wwg.Wait()
+	batch(0, tc.perGen, false)
 	<-famDone
 	if !famOK {
 		return
 	}
+	// thorough: every label of the bounded model must be executed; go on with further (small) behaviours until it is
+	rounds := 0
+	for tier == "thorough" && rounds < 6 && time.Since(start) < tc.budget {
+		st.mu.Lock()
+		missing := 0
+		for k := range universe {
+			if st.shapes[k] == 0 && st.blocked[k] == 0 {
+				missing++
+			}
+		}
+		st.mu.Unlock()
+		if missing == 0 {
+			break
+		}
+		rounds++
+		batch(rounds, tc.extra, true)
+	}
+	r.Set("extra_rounds_for_label_coverage", rounds)
 	report(r, st, universe, nb, simStates, exhausted, tier)
 }
 
 func replayOne(r *ev.Run, st *stats, b *behaviour, pl *plan) {
 	rp := &replayer{st: st, b: b, pl: pl}
-	var merr error
-	func() {
+	guarded := func(x *replayer) (merr error) {
 		defer func() {
 			if p := recover(); p != nil {
 				merr = fmt.Errorf("harness panic while replaying: %v", p)
 			}
 		}()
-		merr = rp.run()
-	}()
-	if merr != nil {
+		return x.run()
+	}
+	if merr := guarded(rp); merr != nil {
 		r.Machinery("%v", merr)
+	}
+	findings := rp.findings
+	// a divergence seen inside or at the end of a multi-operation transaction: find the operation that diverged first
+	firstReal := -1
+	for _, f := range findings {
+		if !f.machinery && (firstReal < 0 || f.step < firstReal) {
+			firstReal = f.step
+		}
+	}
+	if firstReal >= 0 {
+		rp2 := &replayer{st: newStats(ev.New("C08-attribution", "quick", "model_checking")), b: b, pl: pl, attrib: true, limit: firstReal}
+		if merr := guarded(rp2); merr == nil && len(rp2.findings) > 0 {
+			cut := len(b.Trace)
+			for _, f := range rp2.findings {
+				if !f.machinery && f.step < cut {
+					cut = f.step
+				}
+			}
+			if cut <= firstReal || cut < len(b.Trace) {
+				var merged []finding
+				for _, f := range findings {
+					if f.step < cut {
+						merged = append(merged, f)
+					}
+				}
+				for _, f := range rp2.findings {
+					if !f.machinery {
+						merged = append(merged, f)
+					}
+				}
+				findings = merged
+			}
+		}
 	}
 	st.mu.Lock()
 	st.behaviour++
 	first := st.behaviour <= 2
 	st.mu.Unlock()
-	for _, f := range rp.findings {
+	for _, f := range findings {
 		if f.machinery {
 			r.Machinery("%s", f.detail)
 			continue
@@ -734,8 +805,9 @@ func describeList(steps []*step, max int) []string {
 		}
 		a, _ := json.Marshal(s.Act.A)
 		v := ""
-		if len(s.Act.R.Val) > 0 && len(s.Act.R.Val) < 120 {
-			v = " " + string(s.Act.R.Val)
+		var cb bytes.Buffer
+		if json.Compact(&cb, s.Act.R.Val) == nil && cb.Len() > 0 && cb.Len() < 120 {
+			v = " " + cb.String()
 		}
 		out = append(out, fmt.Sprintf("%s%s -> %s%s", s.Act.Op, a, s.Act.R.Cls, v))
 	}
